@@ -339,7 +339,8 @@ def run(repo, rep, tier):
                          'after the repository was changed, this statement '
                          'can still raise %s (from %s): the operation fails '
                          'but the change stays') % (e.exc, e.func),
-                        path=list(e.chain) + [e.func])
+                        path=list(e.chain) + [e.func],
+                        alt='origin:%s from %s' % (e.exc, e.func))
     # ---- R2 ---------------------------------------------------------------
     for path, cn, mn in BATCH:
         f = repo.cls(path, cn).methods.get(mn)
